@@ -5,7 +5,37 @@ from base import (TryOk, PredTrue, PredFalse, Cut, CutPolicy, eq_test, data_test
                   _bool_targets)
 from absint import Val, V, EMPTY, vfield, vget, tagvals, const_of
 
-NONPAYABLE = TryOk(r"cw_utils::nonpayable$")
+class AnyOf(Cut):
+    """one guard in several spellings: the union of what the member cuts remove"""
+
+    def __init__(self, name, cuts):
+        self.name = name
+        self.cuts = cuts
+
+    def remove(self, I, frame, pname, pargs, positive, labels3, opv):
+        out = set()
+        for c in self.cuts:
+            r = c.remove(I, frame, pname, pargs, positive, labels3, opv)
+            if r:
+                out |= set(r)
+        return out or None
+
+
+def _funds_empty(pn, pa):
+    """`info.funds.is_empty()` / `info.funds.len() == 0` (a hand-written nonpayable check)"""
+    if not pa or not hasattr(pa[0], "atoms"):
+        return 0
+    if pn == "is_empty" and exact_origins(pa[0]) == {"info.funds"}:
+        return 1
+    if pn == "eq" and len(pa) > 1 and hasattr(pa[1], "atoms"):
+        a, b = pa[0], pa[1]
+        ln = lambda v: any(o == "info.funds" and "len" in ops for (o, ops) in flat_atoms(v))      # noqa: E731
+        z = lambda v: exact_origins(v) in ({"Const(0_usize)"}, {"Const(0)"})      # noqa: E731
+        return 1 if (ln(a) and z(b)) or (ln(b) and z(a)) else 0
+    return 0
+
+
+NONPAYABLE = AnyOf("try(cw_utils::nonpayable$)", [TryOk(r"cw_utils::nonpayable$"), PredTrue("info.funds.is_empty()", _funds_empty)])
 ASSERT_OWNER = TryOk(r"cw_ownable::assert_owner$")
 IS_OWNER = PredTrue("is_owner(info.sender)", pred_test("is_owner", r"^info\.sender$"))
 
